@@ -77,6 +77,9 @@ type FuncV struct {
 	Lit   *ast.FuncLit
 	Fc    *FnCtx        // defining context (for closures)
 	Cands []*types.Func // closed set of named functions this value can be (read from a literal map of functions)
+	// two function values merged at a join (closure variables assigned on different branches)
+	AltC       *Term
+	AltA, AltB *FuncV
 }
 
 func scalar(v Value) *Term {
@@ -246,6 +249,9 @@ func mergeValue(c *Term, a, b Value) Value {
 		cands := x.Cands
 		if cands == nil {
 			cands = y.Cands
+		}
+		if x.Lit != nil || y.Lit != nil || x.AltC != nil || y.AltC != nil {
+			return &FuncV{Name: "?", Id: Ite(c, x.Id, y.Id), Cands: cands, AltC: c, AltA: x, AltB: y}
 		}
 		return &FuncV{Name: "?", Id: Ite(c, x.Id, y.Id), Cands: cands}
 	}
